@@ -64,6 +64,16 @@ def run_case(ci):
         first = list(evals)
         del evals[:]
         r2 = obj(x0, -1.5) if not (c['cls'] == 'Gradient' and n in (4, 6)) else obj2(xin, -1.5)
+        second = list(evals)
+        # ONE extra positional argument whose value is a tuple (or a list) is one argument, handed to f as it is
+        tuple_ok = True
+        if not (c['cls'] == 'Gradient' and n in (4, 6)):
+            ft = lambda x, pair, t=None: f(x, pair[0], pair[1])
+            for pair in ((2.0, 0.5), [2.0, 0.5]):
+                r3 = getattr(nds, c['cls'])(ft, **kw)(x0, pair)
+                tuple_ok = tuple_ok and np.shape(r3) == np.shape(r1) and bool(np.array_equal(np.asarray(r3), np.asarray(r1), equal_nan=True))
+        del evals[:]
+        evals.extend(second)
     except Exception as ex:
         return dict(error='%s: %s' % (type(ex).__name__, str(ex)[:160]))
     tok1 = all(s == 2.0 and t == 0.5 for _, s, t in first)
@@ -86,7 +96,7 @@ def run_case(ci):
         elif nzc.size > 1:
             offs.append((-1, 0j))
     complex_real_moved = any(np.iscomplexobj(xe) and not np.array_equal(np.real(np.ravel(xe)), x0) for xe, _, _ in first) if c['method'] == 'complex' else False
-    return dict(layouts=layouts, r1=np.asarray(r1).tolist(), r2=np.asarray(r2).tolist(), shape=list(np.shape(r1)), tok=tok1 and tok2, outside=outside, worst=worst,
+    return dict(tuple_ok=tuple_ok, layouts=layouts, r1=np.asarray(r1).tolist(), r2=np.asarray(r2).tolist(), shape=list(np.shape(r1)), tok=tok1 and tok2, outside=outside, worst=worst,
                 nevals=len(first), complex_real_moved=complex_real_moved, offs=[(j, [z.real, z.imag]) for j, z in offs])
 
 
@@ -153,6 +163,8 @@ def run(tier, rep):
                 break
         if not o['tok']:
             rep.violation('args-not-forwarded', dict(case=name), '%s: extra arguments did not reach f unchanged on every evaluation' % name)
+        if not o.get('tuple_ok', True):
+            rep.violation('args-tuple', dict(case=name), '%s: a single extra argument whose value is a tuple / list did not reach f as one argument (result differs from passing its two members separately)' % name)
         if o['outside']:
             rep.violation('outside-box:%s' % c['place'], dict(case=name, point=o['worst']), '%s: %d evaluation(s) left the box, e.g. %s' % (name, o['outside'], o['worst']))
         if c['place'] == 'nobounds':
